@@ -32,7 +32,11 @@ pub enum Kind {
     /// M = [A B; C D] with A r x r triangular
     Schur { a: Tri, m_extra: u8, n_extra: u8, b: Vec<(u8, u8, i8)>, c: Vec<(u8, u8, i8)>, d: Vec<(u8, u8, i8)>, zeros: Vec<(u8, u8)> },
     /// direct sum of blocks + zero rows/cols, conjugated by permutations
-    Decomp { blocks: Vec<(u8, u8, Vec<(u8, u8, i8)>)>, zrows: u8, zcols: u8, ps: u32, qs: u32, stored_zeros: Vec<(u8, u8)> },
+    Decomp { blocks: Vec<(u8, u8, Vec<(u8, u8, i8)>)>, zrows: u8, zcols: u8, ps: u32, qs: u32, stored_zeros: Vec<(u8, u8)>,
+        /// Some(seed): every block is instead a *tree-shaped* block on 2..65 columns (column j > 0 shares one row with a pseudo-random
+        /// earlier column, and every column has 0..12 private rows): sparsely connected column graphs with many columns,
+        /// the shape on which a parallel union-find that loses a link splits a component
+        #[serde(default)] tree: Option<u32> },
 }
 
 #[derive(Clone, Debug, Serialize, Deserialize)]
@@ -158,6 +162,8 @@ fn run_ty<R>(c: &Case, tier: Tier) -> Chk<Pass> where R: Sc + yui::Ring, for<'a>
             ensure!(s == want, "{what}: S = {} != D - C A^-1 B = {}", s.show(), want.show());
             let (ts, tg) = (sch.trans_src().unwrap(), sch.trans_tgt().unwrap());
             let (fs, bs, ft, bt) = (rd(&ts.forward_mat(), &what)?, rd(&ts.backward_mat(), &what)?, rd(&tg.forward_mat(), &what)?, rd(&tg.backward_mat(), &what)?);
+            ensure!(ts.src_dim() == mm.n && ts.tgt_dim() == mm.n - r && tg.src_dim() == mm.m && tg.tgt_dim() == mm.m - r, "{what}: transform dimensions: source {} -> {}, target {} -> {}; expected {} -> {} and {} -> {}", ts.src_dim(), ts.tgt_dim(), tg.src_dim(), tg.tgt_dim(), mm.n, mm.n - r, mm.m, mm.m - r);
+            ensure!(fs.shape() == (mm.n - r, mm.n) && bs.shape() == (mm.n, mm.n - r) && ft.shape() == (mm.m - r, mm.m) && bt.shape() == (mm.m, mm.m - r), "{what}: shapes of the transfer matrices F_src {:?}, B_src {:?}, F_tgt {:?}, B_tgt {:?}", fs.shape(), bs.shape(), ft.shape(), bt.shape());
             ensure!(ft.mul(&mm).mul(&bs) == s, "{what}: F_tgt M B_src != S  (F_tgt = {}, B_src = {})", ft.show(), bs.show());
             ensure!(fs.mul(&bs).is_id(), "{what}: F_src B_src != I"); ensure!(ft.mul(&bt).is_id(), "{what}: F_tgt B_tgt != I");
             ensure!(ts.src_dim() == mm.n && ts.tgt_dim() == mm.n - r && tg.src_dim() == mm.m && tg.tgt_dim() == mm.m - r, "{what}: transform dimensions");
@@ -171,9 +177,26 @@ fn run_ty<R>(c: &Case, tier: Tier) -> Chk<Pass> where R: Sc + yui::Ring, for<'a>
             let mid = r > 0 && r < mm.m.min(mm.n) && !bm.is_zero() && !cm.is_zero();
             pass = pass.nt(mid).label("schur").label_if(r == 0, "r=0").label_if(r == mm.m.min(mm.n), "r=min(m,n)");
         }
-        Kind::Decomp { blocks, zrows, zcols, ps, qs, stored_zeros } => {
+        Kind::Decomp { blocks, zrows, zcols, ps, qs, stored_zeros, tree } => {
             let mut bl: Vec<RM> = vec![];
-            for (bm, bn, e) in blocks.iter().take(tier.pick(5, 8)) { let (m, n) = (*bm as usize % 4 + 1, *bn as usize % 4 + 1); bl.push(entries_model(k, m, n, e)); }
+            for (bi_, (bm, bn, e)) in blocks.iter().take(tier.pick(5, 8)).enumerate() {
+                match tree {
+                    None => { let (m, n) = (*bm as usize % 4 + 1, *bn as usize % 4 + 1); bl.push(entries_model(k, m, n, e)); }
+                    Some(seed) => {
+                        let c = 2 + (*bm as usize % 64);
+                        let mut st = ((*seed as u64) << 8 | bi_ as u64) << 1 | 1;
+                        let mut rnd = || { st = st.wrapping_mul(6364136223846793005).wrapping_add(1442695040888963407); (st >> 33) as usize };
+                        let privs: Vec<usize> = (0..c).map(|_| rnd() % (1 + *bn as usize % 13)).collect();
+                        let m = (c - 1) + privs.iter().sum::<usize>();
+                        let mut b = RM::zero(k, m, c);
+                        let val = |x: usize| k.from_i64([1i64, -1, 2, 3, -2][x % 5]);
+                        for j in 1..c { let par = rnd() % j; b.a[j - 1][j] = val(rnd()); b.a[j - 1][par] = val(rnd()); }
+                        let mut r = c - 1;
+                        for (j, p) in privs.iter().enumerate() { for _ in 0..*p { b.a[r][j] = val(rnd()); r += 1; } }
+                        bl.push(b);
+                    }
+                }
+            }
             let (tm, tn) = (bl.iter().map(|b| b.m).sum::<usize>() + *zrows as usize % 4, bl.iter().map(|b| b.n).sum::<usize>() + *zcols as usize % 4);
             let mut big = RM::zero(k, tm, tn);
             let (mut r0, mut c0) = (0, 0);
@@ -206,7 +229,8 @@ fn run_ty<R>(c: &Case, tier: Tier) -> Chk<Pass> where R: Sc + yui::Ring, for<'a>
             let (p1, q1, s1) = with_threads(1, || call(&what, || dir_sum_decomp(asp.clone())))?;
             let same = (0..tm).all(|i| p1.view().at(i) == pv[i]) && (0..tn).all(|j| q1.view().at(j) == qv[j]) && s1.len() == s.len() && s1.iter().zip(sm.iter()).all(|(x, y)| sp_to_rm(x).ok().as_ref() == Some(y));
             ensure!(same, "{what}: decomposition on {threads} threads differs from the one on 1 thread");
-            pass = pass.nt(sm.len() >= 2).label("decomp").label_if(has_stored_zero, "stored-zeros").label_if(sm.len() == 1 && (sm[0].m == 1 || sm[0].n == 1), "single-line-block").label_if(sm.is_empty(), "no-block");
+            pass = pass.nt(sm.len() >= 2).label("decomp").label_if(has_stored_zero, "stored-zeros").label_if(sm.len() == 1 && (sm[0].m == 1 || sm[0].n == 1), "single-line-block").label_if(sm.is_empty(), "no-block").label_if(tree.is_some(), "tree-shaped-blocks").label_if(tn >= 32, "columns>=32");
+            if tree.is_some() && !has_stored_zero { ensure!(sm.iter().filter(|b| b.m > 0 && b.n > 0).count() == bl.len(), "{what}: {} tree-shaped (connected) blocks were planted, {} blocks with rows and columns returned", bl.len(), sm.iter().filter(|b| b.m > 0 && b.n > 0).count()); }
         }
     }
     Ok(pass)
@@ -233,7 +257,7 @@ impl Prop for C12 {
         "case = (ring in {i64 (diag +-1), Ratio<i64> (diag units 2, 1/2, -3, 2/3, ..), FF<5>, GaussInt<i64> (diag +-1, +-i)}, thread count in {1,2,3,4,8,16}, kind): \
          Solve: triangular A (upper/lower, n in 0..12 (25 thorough), unit diagonal, optional explicit stored zeros anywhere) and a sequence of 1..4 right-hand sides Y (0..12 columns, explicit zeros) solved on one pool: A X = Y, X A = Y (left), solve_triangular_vec, inv_triangular(A) A = I, equal to the 1-thread result; \
          Schur: M = [A B; C D], r in 0..10 incl. r = 0 and r = min(m,n): S = D - C A^-1 B (reference substitution), F_tgt M B_src = S, F B = I, M B_src = B_tgt S, with/without transforms, equal to the 1-thread result; \
-         Decomp: direct sum of up to 5 random blocks plus zero rows/columns conjugated by random permutations: permuted matrix == block-diagonal sum of the returned blocks, each block connected (bipartite row/column graph) when no explicit zero is stored, equal to the 1-thread result. \
+         Decomp: direct sum of up to 5 random blocks (one case in 20: tree-shaped blocks on up to 65 columns each, whose number must be recovered) plus zero rows/columns conjugated by random permutations: permuted matrix == block-diagonal sum of the returned blocks, each block connected (bipartite row/column graph) when no explicit zero is stored, equal to the 1-thread result. \
          non-trivial = Solve with n >= 2 and (>= 2 solves on the pool or more columns than threads); Schur with 0 < r < min(m,n) and B, C non-zero; Decomp with >= 2 blocks".into()
     }
     fn assumptions() -> Vec<String> { vec!["thread schedules are sampled through pool sizes and column counts; rayon decides the column-to-worker assignment".into()] }
@@ -242,8 +266,10 @@ impl Prop for C12 {
         let solve = (tri(mx), prop::collection::vec((any::<u8>(), ents(40), zeros()), 1..5)).prop_map(|(a, ys)| Kind::Solve { a, ys });
         let schur = (tri(10), any::<u8>(), any::<u8>(), ents(30), ents(30), ents(30), zeros()).prop_map(|(a, m_extra, n_extra, b, c, d, zeros)| Kind::Schur { a, m_extra, n_extra, b, c, d, zeros });
         let decomp = (prop::collection::vec((any::<u8>(), any::<u8>(), ents(10)), 0..6), any::<u8>(), any::<u8>(), any::<u32>(), any::<u32>(), zeros())
-            .prop_map(|(blocks, zrows, zcols, ps, qs, stored_zeros)| Kind::Decomp { blocks, zrows, zcols, ps, qs, stored_zeros });
-        (prop::sample::select(vec![RTy::I64, RTy::Q, RTy::F5, RTy::Gauss]), any::<u8>(), prop_oneof![4 => solve, 3 => schur, 3 => decomp])
+            .prop_map(|(blocks, zrows, zcols, ps, qs, stored_zeros)| Kind::Decomp { blocks, zrows, zcols, ps, qs, stored_zeros, tree: None });
+        let decomp_tree = (prop::collection::vec((any::<u8>(), any::<u8>(), Just(vec![])), 1..5), any::<u8>(), any::<u8>(), any::<u32>(), any::<u32>(), any::<u32>())
+            .prop_map(|(blocks, zrows, zcols, ps, qs, seed)| Kind::Decomp { blocks, zrows, zcols, ps, qs, stored_zeros: vec![], tree: Some(seed) });
+        (prop::sample::select(vec![RTy::I64, RTy::Q, RTy::F5, RTy::Gauss]), any::<u8>(), prop_oneof![8 => solve, 6 => schur, 5 => decomp, 1 => decomp_tree])
             .prop_map(|(rty, threads, kind)| Case { rty, threads, kind }).boxed()
     }
     fn cases(tier: Tier) -> u32 { tier.pick(60_000, 1_200_000) }
